@@ -195,15 +195,16 @@ def _lazy_iterator_sites(fi: FuncInfo) -> List["Site"]:
             if isinstance(f, ast.Attribute) and nm in ("append", "insert", "add", "setdefault", "appendleft", "put"):
                 out.append(Site(fi, stmt_of(n), f"{ast.unparse(n)[:60]}", "a lazy iterator (generator expression / map / filter / zip) is stored in a container: it is computed when - and only the first time - somebody reads it"))
                 continue
-        calls_inside = any(isinstance(x, ast.Call) for x in ast.walk(n.elt if is_gen else n) if x is not n) or (is_maker and n.func.id in ("map", "filter"))
         if isinstance(par, ast.Assign) and par.value is n and any(isinstance(t, (ast.Attribute, ast.Subscript)) for t in par.targets):
             out.append(Site(fi, par, f"{ast.unparse(n)[:60]}", "a lazy iterator is stored in an attribute / container slot: it is computed when - and only the first time - somebody reads it"))
             continue
         if isinstance(par, (ast.List, ast.Tuple, ast.Set, ast.Dict)):
             out.append(Site(fi, stmt_of(n), f"{ast.unparse(n)[:60]}", "a lazy iterator is placed in a container literal"))
             continue
-        if isinstance(par, (ast.Assign, ast.AnnAssign, ast.Return, ast.NamedExpr)) and calls_inside:
-            out.append(Site(fi, stmt_of(n), f"{ast.unparse(n)[:60]}", "a lazy iterator whose elements are computed by calls is not consumed where it is created: the calls run later, against whatever state holds then (e.g. after a frame was pushed), instead of here"))
+        # A lazy iterator held in a local (or handed back to the caller) and consumed later in the same activation is
+        # not reported here: whether the delay matters depends on what the deferred calls read and what changes in
+        # between, which the rules of the property decide (C02.R3a/R3f: arguments visited inside the callee's frame
+        # are harmless exactly when the frame's keys are fresh names).
     return out
 
 
